@@ -200,8 +200,11 @@ def judge(prop, case, rec, out):
         mon['progressInRange'] = all(0 <= Fraction(e[6]) <= 1 for e in rec['obsData'])
         # every entry shows its own task: the name as it is (text in names cannot alter entries), the dates as formatted by the harness
         byid = {rec['dhtmlx'][u]['id']: rec['dhtmlx'][u] for u in rec['members']}
+        memb = set(rec['members'])
+        pid = lambda d: 0 if d['parent'] is None or d['parent'] not in memb else rec['dhtmlx'][d['parent']]['id']
         mon['entryShowsItsTask'] = all(e[0] in byid and (byid[e[0]]['name'] is None or e[1] == byid[e[0]]['name']) and
-                                       e[3] == byid[e[0]]['start'] and e[4] == byid[e[0]]['end'] for e in rec['obsData'])
+                                       e[3] == byid[e[0]]['start'] and e[4] == byid[e[0]]['end'] and e[5] == pid(byid[e[0]])
+                                       for e in rec['obsData'])
         # "grouped under its section": when the chart has more than one section (tasks without one form the section '-'), every task line
         # follows the header of its own section.  Headers are indented by two blanks, task lines by four, and a task line ends with its id
         # and dates - a single-line name cannot imitate either.
